@@ -119,7 +119,12 @@ func Minimize(rc RunConfig, actions []Action, target *Violation, opt Options, bu
 			}
 		case APropose:
 			if len(a.Tags) > 1 {
-				alts = append(alts, Action{K: APropose, N: a.N, Tags: a.Tags[:1], I: a.I})
+				alts = append(alts, Action{K: APropose, N: a.N, Tags: a.Tags[:1], I: a.I, J: a.J})
+			}
+			if a.J != 0 {
+				b := a
+				b.J = 0
+				alts = append(alts, b)
 			}
 			if a.I > 0 {
 				b := a
